@@ -36,7 +36,9 @@
                                          select whose timeout is due, `! [0]` at quantum 1);
        parked_has_no_unseen_message    : a process parked in an evaluated select has every receive
                                          cursor at the end of its mailbox (for slices that park
-                                         honestly: `honest_run`, the select machine of C05).
+                                         honestly: `honest_run`, the select machine of C05; a select
+                                         that re-parks before all its awaited targets are reported —
+                                         repair of F72 — has its start unset and is not constrained).
    FORMERLY NOT PROVED (the old text is kept):
      no_lost_wakeup_partial : the fourth clause of Inv_parked — "p in selecting, p awaits t, t has
                             a result  ->  the answer is in flight (ProcessResults event, pending_awaits
@@ -69,7 +71,9 @@
          unfailed process has a None entry for a finished process (a pending_awaits entry is live:
          every worker it still expects has the query or an answer in its queues), and with
          parked_has_no_unseen_message: no parked process has an unseen ready source.
-     F72 is NOT a counterexample to this clause: the overtaken awaiter is runnable, not parked. *)
+     F72 (repaired by 8388832) was NOT a counterexample to this clause: the overtaken awaiter is
+     runnable, not parked; since the repair it parks again until the answer arrives, which is the
+     case this clause covers (the answer is in flight). *)
 From Quiver Require Import sys.Proto sys.ProtoMsg sys.ProtoFifo sys.ProtoDeliver sys.ProtoFail sys.ProtoWake sys.ProtoExamples
   sys.ProtoWf sys.ProtoParked sys.ProtoSpawnInv sys.ProtoArrive sys.ProtoMicro sys.ProtoOps sys.ProtoAwait sys.ProtoAwaitInv sys.ProtoAwaitThm sys.ProtoQuiesce.
 
